@@ -169,6 +169,20 @@ def cluster_tree():
     return {"version": "", "nodes": nodes, "vectors": vectors}
 
 
+def swap_tree():
+    """option occurrences at a level that has sub commands, in both orders, the last one directly in front of the sub command name;
+    attached values that end in the letter of a valued option"""
+    t = cluster_tree()
+    vectors = []
+    for a, b in ((["-f"], ["-sfoos"]), (["-f"], ["-smain.n"]), (["-n=7"], ["-sn"]), (["-f"], ["-s", "v"]), (["-fsn"], ["-n", "7"]), (["--str=ss"], ["-f"]),
+                 (["-n7"], ["-sfn"]), (["-f"], ["-n12"])):
+        for sub in (["run"], ["r", "-f"], ["num", "7"]):
+            vectors.append(a + b + sub)
+            vectors.append(b + a + sub)
+    t["vectors"] = vectors
+    return t
+
+
 def late_tree():
     """declaration-free commands; `late` is added to the application after earlier runs"""
     BARE = {"opts": [], "args": []}
